@@ -885,7 +885,14 @@ def _broadcast_shape_dims(
     return tuple(result)
 
 
-def _refresh_elementwise_output_shape(node: ir.Node) -> None:
+def _refresh_elementwise_output_shape(node: ir.Node, *, rewired: bool = False) -> None:
+    """Recompute the declared shape of an elementwise node's output.
+
+    ``rewired=True``: the caller has just changed the node's inputs (a fold moved
+    it to another layout), so the existing annotation is known to be stale; when
+    the new shape cannot be determined it is cleared rather than kept (an unknown
+    annotation is true, a stale one is false).
+    """
     if (getattr(node, "domain", "") or "") != "":
         return
     outs = _node_outputs(node)
@@ -897,10 +904,17 @@ def _refresh_elementwise_output_shape(node: ir.Node) -> None:
         # participate in broadcasting, so the output shape is always the shape
         # of the data input.
         if ins:
-            _copy_shape_only(outs[0], ins[0])
+            if rewired and (
+                ins[0] is None or _shape_dims_seq(ins[0].shape) is None
+            ):
+                outs[0].shape = None
+            else:
+                _copy_shape_only(outs[0], ins[0])
         return
     src = _elementwise_shape_source(ins)
     if src is None:
+        if rewired:
+            outs[0].shape = None
         return
     candidate_shapes: List[Tuple[Any, ...]] = []
     for iv in ins:
@@ -912,10 +926,14 @@ def _refresh_elementwise_output_shape(node: ir.Node) -> None:
         if dims is None:
             # An operand of unknown shape may have any rank: the broadcast of
             # the remaining operands says nothing about the result.
+            if rewired:
+                outs[0].shape = None
             return
         candidate_shapes.append(dims)
     merged = _broadcast_shape_dims(candidate_shapes)
     if merged is None:
+        if rewired:
+            outs[0].shape = None
         return
     # Decide first, write afterwards: nothing is copied from the source operand
     # unless the broadcast of ALL operand shapes is known.
@@ -1318,7 +1336,7 @@ def remove_redundant_transpose_add_forests_ir(graph: ir.Graph) -> None:
                     src = _first_input(prod)
                     if isinstance(src, ir.Value):
                         add_node.replace_input_with(idx, src)
-                _refresh_elementwise_output_shape(add_node)
+                _refresh_elementwise_output_shape(add_node, rewired=True)
 
             # Remove output Transpose(perm_inv) wrappers.
             for out_transpose in output_transposes:
@@ -1509,7 +1527,7 @@ def remove_redundant_transpose_pairs_ir(graph: ir.Graph) -> None:
                     if src is None:
                         continue
                     node.replace_input_with(idx, src)
-                _refresh_elementwise_output_shape(node)
+                _refresh_elementwise_output_shape(node, rewired=True)
 
             # Remove inverse transposes on outputs of the chain.
             to_remove: Set[ir.Node] = set()
@@ -1619,7 +1637,7 @@ def remove_redundant_transpose_pairs_ir(graph: ir.Graph) -> None:
             # with the shape of a not-yet-refreshed producer.
             for node in nodes:
                 if node in elem_nodes:
-                    _refresh_elementwise_output_shape(node)
+                    _refresh_elementwise_output_shape(node, rewired=True)
 
             # Remove inverse transposes on outputs of the DAG.
             for t_out_node in output_transposes:
@@ -1710,7 +1728,7 @@ def remove_redundant_transpose_pairs_ir(graph: ir.Graph) -> None:
                         node.replace_input_with(idx, t1_in)
             for node in nodes:
                 if node in elem_nodes:
-                    _refresh_elementwise_output_shape(node)
+                    _refresh_elementwise_output_shape(node, rewired=True)
             t2_out = _node_output(t2_node)
             if t2_out is None:
                 continue
@@ -2002,7 +2020,7 @@ def remove_redundant_reshape_pairs_ir(graph: ir.Graph) -> None:
                     t1_out, src, replace_graph_outputs=True
                 )
                 for node in allowed_fwd:
-                    _refresh_elementwise_output_shape(node)
+                    _refresh_elementwise_output_shape(node, rewired=True)
                 new_src = _node_output(last_allowed) or src
             else:
                 new_src = src
